@@ -368,8 +368,9 @@ def _build_failure_report(prop, e, tier, seed):
     os.makedirs(EVIDENCE, exist_ok=True)
     with open(os.path.join(EVIDENCE, prop.ID + ".json"), "w") as f:
         json.dump({"property_id": prop.ID, "tier": tier, "seed": seed, "level": "exploration",
-                   "coverage": {"evaluations": 0, "distinct_nontrivial": 0, "rule": prop.RULE, "samples": [],
-                                "note": "the %s configuration of the tree could not be built: its interpreter failed while running the project's own build programs" % variant},
+                   "coverage": {"evaluations": 1, "distinct_nontrivial": 0, "rule": prop.RULE,
+                                "samples": [{"what": "build of the %s configuration" % variant, "failing_step": detail}],
+                                "note": "the %s configuration of the tree could not be built: its interpreter failed while running the project's own build programs; no simulated case was run" % variant},
                    "assumptions": prop.ASSUMPTIONS, "wall_s": 0, "violations": 1}, f, indent=1)
     print("VIOLATION property=%s replay=%s" % (prop.ID, path))
     print("  class=build:interpreter-failed-in-%s detail=%s" % (variant, detail))
